@@ -67,10 +67,12 @@ def colourings(TD, m):
     return res
 
 
-def probe_inst(unw2, unw3):
+def probe_inst(unw2, unw3, tds=(2, 3)):
     """(shape, colouring, operation-key) instances with canonical keys (see closed.c): every LLRB 2-3-4 tree of the height, PROBE ranges over 0..2n"""
     out = []
     for td, unw in ((2, unw2), (3, unw3)):
+        if td not in tds:
+            continue
         for m in shapes(td):
             if td == 3 and m in shapes(2):
                 continue
@@ -90,16 +92,19 @@ def tg(name, entry, funcs, props, inst, **kw):
     return d
 
 GROUPS = [
-    tg('put', 'h_put', ['qtreetbl_putobj', 'put_obj', 'new_obj', 'rotate_left', 'rotate_right', 'flip_color', 'is_red', 'qtreetbl_free', 'free_objs'], P_ALL,
-       probe_inst(5, 6)),
+    # every (tree, key) pair with allocation succeeding: fully concrete structure, values symbolic
+    tg('put', 'h_put', ['qtreetbl_putobj', 'put_obj', 'new_obj', 'rotate_left', 'rotate_right', 'flip_color', 'is_red', 'qtreetbl_free', 'free_objs'],
+       ['C01', 'C02', 'C11', 'C12', 'C14'], probe_inst(5, 9), flags=['--memory-leak-check', '--no-malloc-may-fail'], defines=['-DNOFAIL']),
+    # the same with every allocation free to fail (C15), on the trees of height <= 2
+    tg('put_fail', 'h_put', ['qtreetbl_putobj', 'put_obj', 'new_obj'], ['C15', 'C02', 'C11', 'C14'], probe_inst(5, 9, tds=(2,))),
     tg('remove', 'h_remove', ['qtreetbl_removeobj', 'remove_obj', 'remove_min', 'move_red_left', 'move_red_right', 'fix', 'find_min'], P_ALL,
-       probe_inst(5, 6)),
+       probe_inst(5, 9)),
     tg('get', 'h_get', ['qtreetbl_getobj', 'find_obj', 'qtreetbl_size', 'qtreetbl_find_min', 'qtreetbl_find_max', 'find_min', 'find_max', 'qtreetbl_clear'], P_ALL,
-       shape_inst(5, 6)),
-    tg('walk', 'h_walk', ['qtreetbl_getnext', 'reset_iterator'], ['C03', 'C11', 'C12'],
-       shape_inst(7, 9)),
+       shape_inst(5, 9)),
+    tg('walk', 'h_walk', ['qtreetbl_getnext', 'reset_iterator'], ['C03', 'C11', 'C12', 'C15'],
+       shape_inst(7, 11, thorough3=True)),
     tg('nearest', 'h_nearest', ['qtreetbl_find_nearest', 'qtreetbl_getnext', 'reset_iterator'], ['C04', 'C03', 'C11', 'C14', 'C15'],
-       shape_inst(7, 9)),
+       shape_inst(7, 11, thorough3=True)),
     tg('checker', 'h_checker', ['qtreetbl_check', 'node_check_root', 'node_check_red', 'node_check_black', 'node_check_llrb'], ['C02'],
-       [dict(TD=2, unwind=5), dict(TD=3, unwind=6)]),
+       [dict(TD=2, unwind=5), dict(TD=3, unwind=9)]),
 ]
